@@ -312,11 +312,13 @@ CONTRACTS[PA + 'PauliList.transform_by#state'] = dict(
     params=[('self', STATE), ('clifford_map', CMAP), ('mask', 'none')], defaults={'mask': None},
     requires=['cols(self.gs) % 2 == 0', 'inv_state(self.gs, self.ps, self.r, cols(self.gs) // 2)',
               'rows(clifford_map.gs) == cols(self.gs)', 'cols(clifford_map.gs) == cols(self.gs)', 'len(clifford_map.ps) == rows(clifford_map.gs)',
-              'bits2(clifford_map.gs)', 'gram_map(clifford_map.gs, cols(self.gs) // 2)'],
-    # the images of the tableau rows under a valid map have the same commutation structure: rows still anticommute exactly with
-    # their partners (the signs of the images are NOT claimed Hermitian here: that part of C05 stays with the bounded histories)
+              'bits2(clifford_map.gs)', 'gram_map(clifford_map.gs, cols(self.gs) // 2)',
+              'forall(k, 0, rows(clifford_map.gs), clifford_map.ps[k] == 0 or clifford_map.ps[k] == 2)'],
+    # the images of the tableau rows under a valid map (Hermitian images of X_i, Z_i) form a valid tableau again: rows still anticommute
+    # exactly with their partners, and the active stabilizers keep Hermitian signs
     ensures=['rows(self.gs) == 2 * (%s)' % _N2, 'cols(self.gs) == 2 * (%s)' % _N2, 'len(self.ps) == 2 * (%s)' % _N2, 'bits2(self.gs)',
-             'gram(self.gs, %s)' % _N2, 'same_loc(result, self)', 'self.r == old(self.r)'],
+             'gram(self.gs, %s)' % _N2, 'same_loc(result, self)', 'self.r == old(self.r)',
+             'forall(a, self.r, %s, self.ps[a] == 0 or self.ps[a] == 2)' % _N2],
     modifies=['self.gs', 'self.ps'], returns='=self',
     hints={'return': [
         ('assert_from', 'gram(self.gs, %s)' % _N2,
@@ -325,5 +327,36 @@ CONTRACTS[PA + 'PauliList.transform_by#state'] = dict(
           ('forall_lemma', [('i', '0', 'rows(self.gs)'), ('l', '0', 'rows(self.gs)')], 'transform_preserves_acq', ['%s[i]' % _os, '%s[l]' % _os, _M, _N2]),
           ('forall_lemma', [('i', '0', 'rows(self.gs)'), ('l', '0', 'rows(self.gs)')], 'acqsum_ext', ['self.gs[i]', _R('i'), 'self.gs[l]', _N2]),
           ('forall_lemma', [('i', '0', 'rows(self.gs)'), ('l', '0', 'rows(self.gs)')], 'acqsum_ext', ['self.gs[l]', _R('l'), _R('i'), _N2])]),
+        ('assert_from', 'forall(a, self.r, %s, self.ps[a] == 0 or self.ps[a] == 2)' % _N2,
+         ['forall(j, 0, 2 * (%s), self.ps[j] == (old(self.ps)[j] + XZSum(%s[j], %s) %% 4 + OrdP(%s[j], %s, clifford_map.ps, 2 * (%s), %s)) %% 4)'
+          % (_N2, _os, _N2, _os, _M, _N2, _N2),
+          'forall(a, self.r, %s, old(self.ps)[a] == 0 or old(self.ps)[a] == 2)' % _N2, '0 <= self.r', 'self.r == old(self.r)',
+          ('forall_lemma', [('j', '0', '2 * (%s)' % _N2)], 'ordp_parity', ['%s[j]' % _os, _M, 'clifford_map.ps', '2 * (%s)' % _N2, _N2]),
+          ('forall_lemma', [('j', '0', '2 * (%s)' % _N2)], 'xzpartial_full', ['%s[j]' % _os, _N2])]),
     ]},
+)
+
+# ------------------------------------------------------------------ C05 / C09: a full-register gate keeps a state valid
+_inv_obj = 'inv_state(obj.gs, obj.ps, obj.r, cols(obj.gs) // 2)'
+_inv_obj_post = ['rows(obj.gs) == cols(obj.gs)', 'len(obj.ps) == rows(obj.gs)', 'bits2(obj.gs)', 'gram(obj.gs, cols(obj.gs) // 2)',
+                 'forall(a, obj.r, cols(obj.gs) // 2, obj.ps[a] == 0 or obj.ps[a] == 2)', 'obj.r == old(obj.r)', 'same_loc(result, obj)']
+CONTRACTS[CI + 'CliffordGate.forward#generator_global_state'] = dict(
+    params=[('self', GATE_GEN), ('obj', STATE)],
+    requires=['self.n == cols(obj.gs) // 2', 'cols(obj.gs) % 2 == 0', _inv_obj, 'len(self.generator.g) == cols(obj.gs)', 'bits1(self.generator.g)',
+              'self.generator.p == 0 or self.generator.p == 2'],
+    ensures=_inv_obj_post, modifies=['obj.gs', 'obj.ps'], returns='=obj',
+)
+CONTRACTS[CI + 'CliffordGate.backward#generator_global_state'] = dict(
+    params=[('self', GATE_GEN), ('obj', STATE)],
+    requires=['self.n == cols(obj.gs) // 2', 'cols(obj.gs) % 2 == 0', _inv_obj, 'len(self.generator.g) == cols(obj.gs)', 'bits1(self.generator.g)',
+              'self.generator.p == 0 or self.generator.p == 2'],
+    ensures=_inv_obj_post, modifies=['obj.gs', 'obj.ps'], returns='=obj',
+)
+CONTRACTS[CI + 'CliffordGate.forward#map_global_state'] = dict(
+    params=[('self', GATE_MAP), ('obj', STATE)],
+    requires=['self.n == cols(obj.gs) // 2', 'cols(obj.gs) % 2 == 0', _inv_obj,
+              'rows(self.forward_map.gs) == cols(obj.gs)', 'cols(self.forward_map.gs) == cols(obj.gs)', 'len(self.forward_map.ps) == rows(self.forward_map.gs)',
+              'bits2(self.forward_map.gs)', 'gram_map(self.forward_map.gs, cols(obj.gs) // 2)',
+              'forall(k, 0, rows(self.forward_map.gs), self.forward_map.ps[k] == 0 or self.forward_map.ps[k] == 2)'],
+    ensures=_inv_obj_post, modifies=['obj.gs', 'obj.ps'], returns='=obj',
 )
